@@ -317,14 +317,235 @@ Proof.
     replace (4 * hn)%nat with (Nat.pow 4 (S l)) by (unfold hn; cbn [Nat.pow]; lia). reflexivity.
 Qed.
 
-(* matrix_decomposition on a 2^N x 2^N matrix whose Pauli-order vectorisation is v *)
-Theorem gen_n_full (fuel N : nat) (v : gvec) : length v = Nat.pow 4 N -> (1 <= N)%nat -> (N < fuel)%nat ->
-  py_N_matrix_decomposition fuel 2 (Z.of_nat (Nat.pow 2 N)) (Z.of_nat (Nat.pow 2 N)) (lift 0 v) = FRet (lift N (bfly_iter N v)).
+
+(* ---- _pauli_ord and _mat_to_vec: the index arrays and the gather ---- *)
+Fixpoint rows (n : nat) : list Z := match n with O => [0] | S m => let hi := 2 ^ Z.of_nat m in rows m ++ map (fun x => x + hi) (rows m) ++ rows m ++ map (fun x => x + hi) (rows m) end.
+Fixpoint cols (n : nat) : list Z := match n with O => [0] | S m => let hi := 2 ^ Z.of_nat m in cols m ++ map (fun x => x + hi) (cols m) ++ map (fun x => x + hi) (cols m) ++ cols m end.
+Lemma rows_length n : length (rows n) = Nat.pow 4 n.
+Proof. induction n as [|n IH]; [reflexivity|]. cbn [rows Nat.pow]. cbv zeta. rewrite !app_length, !map_length, IH. lia. Qed.
+Lemma cols_length n : length (cols n) = Nat.pow 4 n.
+Proof. induction n as [|n IH]; [reflexivity|]. cbn [cols Nat.pow]. cbv zeta. rewrite !app_length, !map_length, IH. lia. Qed.
+Lemma pow4_nat l : Z.of_nat (Nat.pow 4 l) = 4 ^ Z.of_nat l.
+Proof. induction l as [|l IH]; [reflexivity|]. rewrite Nat2Z.inj_succ, Z.pow_succ_r by lia. cbn [Nat.pow]. lia. Qed.
+Lemma pow2_gt0 (m : nat) : 0 < 2 ^ Z.of_nat m. Proof. apply Z.pow_pos_nonneg; lia. Qed.
+Lemma rows_bound n : forall x, In x (rows n) -> 0 <= x < 2 ^ Z.of_nat n.
 Proof.
-  intros Hv HN Hf. unfold py_N_matrix_decomposition. cbv zeta. cbn [Z.eqb negb seqo Pos.eqb]. rewrite Z.eqb_refl. cbn [negb seqo].
+  induction n as [|n IH]; intros x Hx; [destruct Hx as [<-|[]]; cbn; lia|]. cbn [rows] in Hx. cbv zeta in Hx. rewrite Nat2Z.inj_succ, Z.pow_succ_r by lia.
+  pose proof (pow2_gt0 n). rewrite !in_app_iff, !in_map_iff in Hx.
+  destruct Hx as [H1|[[y [<- H1]]|[H1|[y [<- H1]]]]]; apply IH in H1; lia.
+Qed.
+Lemma cols_bound n : forall x, In x (cols n) -> 0 <= x < 2 ^ Z.of_nat n.
+Proof.
+  induction n as [|n IH]; intros x Hx; [destruct Hx as [<-|[]]; cbn; lia|]. cbn [cols] in Hx. cbv zeta in Hx. rewrite Nat2Z.inj_succ, Z.pow_succ_r by lia.
+  pose proof (pow2_gt0 n). rewrite !in_app_iff, !in_map_iff in Hx.
+  destruct Hx as [H1|[[y [<- H1]]|[[y [<- H1]]|H1]]]; apply IH in H1; lia.
+Qed.
+
+Lemma idx_ok_lt {A} (l : list A) j : 0 <= j < Z.of_nat (length l) -> idx_ok l j = true.
+Proof. intros H. unfold idx_ok, py_index. assert (E1 : (j <? 0) = false) by lia. rewrite E1. assert (E2 : ((0 <=? j) && (j <? Z.of_nat (length l))) = true) by lia. rewrite E2. reflexivity. Qed.
+Lemma list_set_lt {A} (l : list A) j v : 0 <= j < Z.of_nat (length l) -> list_set l j v = set_nth l (Z.to_nat j) v.
+Proof. intros H. unfold list_set, py_index. assert (E1 : (j <? 0) = false) by lia. rewrite E1. assert (E2 : ((0 <=? j) && (j <? Z.of_nat (length l))) = true) by lia. rewrite E2. reflexivity. Qed.
+Lemma list_get_lt {A} (d : A) (l : list A) j : 0 <= j < Z.of_nat (length l) -> list_get d l j = nth (Z.to_nat j) l d.
+Proof. intros H. unfold list_get, py_index. assert (E1 : (j <? 0) = false) by lia. rewrite E1. assert (E2 : ((0 <=? j) && (j <? Z.of_nat (length l))) = true) by lia. rewrite E2. reflexivity. Qed.
+
+Lemma clamp_Z {A} (l : list A) (k : Z) : 0 <= k <= Z.of_nat (length l) -> clamp l k = Z.to_nat k.
+Proof. intros H. unfold clamp. assert (E : (k <? 0) = false) by lia. rewrite E. lia. Qed.
+Lemma slice_to_app {A} (P R : list A) k : k = Z.of_nat (length P) -> slice_to (P ++ R) k = P.
+Proof. intros ->. unfold slice_to. rewrite clamp_Z by (rewrite app_length; lia). rewrite Nat2Z.id. apply firstn_app_exact. reflexivity. Qed.
+Lemma guard_ok {A B} (l : list A) (rhs : list B) a b : 0 <= a <= b -> b <= Z.of_nat (length l) -> length rhs = Z.to_nat (b - a) ->
+  Nat.eqb (length rhs) (length (slice_range l a b)) = true.
+Proof.
+  intros H1 H2 H3. apply Nat.eqb_eq. unfold slice_range. rewrite !clamp_Z by lia. rewrite firstn_length, skipn_length. lia.
+Qed.
+Lemma sa1 {A} (L0 L1 R X : list A) (p : nat) : length L0 = p -> length L1 = p ->
+  slice_assign (L0 ++ L1 ++ R) (Z.of_nat p) (2 * Z.of_nat p) X = L0 ++ X ++ R.
+Proof. intros H0 H1. pose proof (assign_mid L0 L1 R X) as E. rewrite H0, H1 in E. replace (Z.of_nat p + Z.of_nat p) with (2 * Z.of_nat p) in E by lia. exact E. Qed.
+Lemma sa2 {A} (L0 L1 L2 R X : list A) (p : nat) : length L0 = p -> length L1 = p -> length L2 = p ->
+  slice_assign (L0 ++ L1 ++ L2 ++ R) (2 * Z.of_nat p) (3 * Z.of_nat p) X = L0 ++ L1 ++ X ++ R.
+Proof.
+  intros H0 H1 H2. pose proof (assign_mid (L0 ++ L1) L2 R X) as E. rewrite app_length, H0, H1, H2 in E.
+  replace (Z.of_nat (p + p)) with (2 * Z.of_nat p) in E by lia. replace (2 * Z.of_nat p + Z.of_nat p) with (3 * Z.of_nat p) in E by lia.
+  rewrite <- !app_assoc in E. exact E.
+Qed.
+Lemma sa3 {A} (L0 L1 L2 L3 R X : list A) (p : nat) : length L0 = p -> length L1 = p -> length L2 = p -> length L3 = p ->
+  slice_assign (L0 ++ L1 ++ L2 ++ L3 ++ R) (3 * Z.of_nat p) (4 * Z.of_nat p) X = L0 ++ L1 ++ L2 ++ X ++ R.
+Proof.
+  intros H0 H1 H2 H3. pose proof (assign_mid (L0 ++ L1 ++ L2) L3 R X) as E. rewrite !app_length, H0, H1, H2, H3 in E.
+  replace (Z.of_nat (p + (p + p))) with (3 * Z.of_nat p) in E by lia. replace (3 * Z.of_nat p + Z.of_nat p) with (4 * Z.of_nat p) in E by lia.
+  rewrite <- !app_assoc in E. exact E.
+Qed.
+Lemma split4 {A} (l : list A) (p : nat) : length l = (4 * p)%nat -> exists a b c d, l = a ++ b ++ c ++ d /\ length a = p /\ length b = p /\ length c = p /\ length d = p.
+Proof.
+  intros H. exists (firstn p l), (firstn p (skipn p l)), (firstn p (skipn p (skipn p l))), (skipn p (skipn p (skipn p l))).
+  rewrite !firstn_skipn. repeat split; rewrite ?firstn_length, ?skipn_length; lia.
+Qed.
+Lemma set_nth_length {A} (l : list A) : forall k v, length (set_nth l k v) = length l.
+Proof. induction l as [|a l IH]; intros [|k] v; cbn [set_nth length]; [reflexivity..|]. rewrite IH. reflexivity. Qed.
+
+(* _pauli_ord(row, col, n) fills the first 4^n entries of both arrays *)
+Lemma pauli_ord_spec : forall m fuel R0 RT C0 CT, (m < fuel)%nat -> length R0 = Nat.pow 4 (S m) -> length C0 = Nat.pow 4 (S m) ->
+  py_N__pauli_ord fuel (R0 ++ RT) (C0 ++ CT) (Z.of_nat (S m)) = FRet (rows (S m) ++ RT, cols (S m) ++ CT).
+Proof.
+  induction m as [|m IH]; intros fuel R0 RT C0 CT Hf HR HC; (destruct fuel as [|f]; [lia|]).
+  - destruct R0 as [|r0 [|r1 [|r2 [|r3 [|]]]]]; try discriminate HR. destruct C0 as [|c0 [|c1 [|c2 [|c3 [|]]]]]; try discriminate HC.
+    cbn beta iota delta [py_N__pauli_ord]. change (Z.of_nat 1 =? 1) with true. cbv beta iota zeta.
+    repeat (rewrite idx_ok_lt by (cbn [length app]; lia); rewrite list_set_lt by (cbn [length app]; lia);
+            change (Z.to_nat 0) with 0%nat; change (Z.to_nat 1) with 1%nat; change (Z.to_nat 2) with 2%nat; change (Z.to_nat 3) with 3%nat; cbn [set_nth app]).
+    reflexivity.
+  - cbn beta iota delta [py_N__pauli_ord].
+    assert (E1 : (Z.of_nat (S (S m)) =? 1) = false) by lia. rewrite E1.
+    replace (Z.of_nat (S (S m)) - 1) with (Z.of_nat (S m)) by lia.
+    set (p := Nat.pow 4 (S m)).
+    destruct (split4 R0 p ltac:(rewrite HR; unfold p; cbn [Nat.pow]; lia)) as [ra [rb [rc [rd [-> [Hra [Hrb [Hrc Hrd]]]]]]]].
+    destruct (split4 C0 p ltac:(rewrite HC; unfold p; cbn [Nat.pow]; lia)) as [ca [cb [cc [cd [-> [Hca [Hcb [Hcc Hcd]]]]]]]].
+    rewrite <- !app_assoc.
+    rewrite (IH f ra (rb ++ rc ++ rd ++ RT) ca (cb ++ cc ++ cd ++ CT) ltac:(lia) Hra Hca).
+    assert (Hpw : Z.shiftl 1 (2 * Z.of_nat (S m)) = Z.of_nat p).
+    { rewrite Z.shiftl_1_l. unfold p. rewrite pow4_nat. rewrite Z.pow_mul_r by lia. reflexivity. }
+    assert (Hhi : Z.shiftl 1 (Z.of_nat (S m)) = 2 ^ Z.of_nat (S m)) by apply Z.shiftl_1_l.
+    cbv beta iota zeta. rewrite !Hpw, !Hhi.
+    assert (G1 : (0 <=? 2 * Z.of_nat (S m)) = true) by lia. assert (G2 : (0 <=? Z.of_nat (S m)) = true) by lia. rewrite !G1, !G2.
+    pose proof (rows_length (S m)) as LR. pose proof (cols_length (S m)) as LC. fold p in LR, LC.
+    Ltac len := rewrite ?app_length, ?map_length; lia.
+    repeat first
+      [ match goal with |- context [slice_to (?P ++ ?R) (Z.of_nat ?q)] => rewrite (slice_to_app P R (Z.of_nat q)) by (f_equal; len) end
+      | match goal with |- context [Nat.eqb (length ?rhs) (length (slice_range (?a0 ++ ?a1) ?a ?b))] => rewrite (guard_ok (a0 ++ a1) rhs a b) by len end
+      | match goal with |- context [slice_assign (?L0 ++ ?L1 ++ ?R) (Z.of_nat ?q) (2 * Z.of_nat ?q) ?X] => rewrite (sa1 L0 L1 R X q) by len end
+      | match goal with |- context [slice_assign (?L0 ++ ?L1 ++ ?L2 ++ ?R) (2 * Z.of_nat ?q) (3 * Z.of_nat ?q) ?X] => rewrite (sa2 L0 L1 L2 R X q) by len end
+      | match goal with |- context [slice_assign (?L0 ++ ?L1 ++ ?L2 ++ ?L3 ++ ?R) (3 * Z.of_nat ?q) (4 * Z.of_nat ?q) ?X] => rewrite (sa3 L0 L1 L2 L3 R X q) by len end ].
+    cbn [rows cols]. cbv zeta. rewrite <- !app_assoc. reflexivity.
+Qed.
+
+
+(* _mat_to_vec(matrix) on the row-major entries: the entries at 2^N * row + col, in Pauli order *)
+Definition gather_idx (N : nat) : list Z := map (fun p_ => fst p_ + snd p_) (combine (map (fun x_ => 2 ^ Z.of_nat N * x_) (rows N)) (cols N)).
+Lemma bit_length_pow2 N : bit_lengthZ (Z.of_nat (Nat.pow 2 N)) - 1 = Z.of_nat N.
+Proof.
+  rewrite pow2_nat. pose proof (pow2_gt0 N) as H. unfold bit_lengthZ. destruct (2 ^ Z.of_nat N) as [|q|q] eqn:E; try lia.
+  rewrite <- E, Z.log2_pow2 by lia. lia.
+Qed.
+Lemma gather_idx_bound N : forall j, In j (gather_idx N) -> 0 <= j < 4 ^ Z.of_nat N.
+Proof.
+  intros j Hj. unfold gather_idx in Hj. apply in_map_iff in Hj. destruct Hj as [[x y] [<- Hp]]. cbn [fst snd].
+  pose proof (in_combine_l _ _ _ _ Hp) as Hx. pose proof (in_combine_r _ _ _ _ Hp) as Hy. apply in_map_iff in Hx. destruct Hx as [r [<- Hr]].
+  apply rows_bound in Hr. apply cols_bound in Hy. replace (4 ^ Z.of_nat N) with (2 ^ Z.of_nat N * 2 ^ Z.of_nat N).
+  - nia.
+  - rewrite <- Z.pow_mul_l. reflexivity.
+Qed.
+Theorem gen_n_mat_to_vec_idx (fuel N : nat) (flat : list num) : (1 <= N)%nat -> (N < fuel)%nat -> length flat = Nat.pow 4 N ->
+  py_N__mat_to_vec fuel (Z.of_nat (Nat.pow 2 N)) flat = FRet (map (list_get ((0, 0), O) flat) (gather_idx N)).
+Proof.
+  intros HN Hf Hl. destruct fuel as [|f]; [lia|]. unfold py_N__mat_to_vec. cbv beta iota zeta. rewrite !bit_length_pow2.
+  assert (G1 : (0 <=? Z.of_nat N) = true) by lia. assert (G2 : (0 <=? 4 ^ Z.of_nat N) = true) by (pose proof (Z.pow_nonneg 4 (Z.of_nat N)); lia).
+  rewrite !G1, !G2. rewrite <- pow4_nat, Nat2Z.id. destruct N as [|m]; [lia|].
+  pose proof (pauli_ord_spec m f (repeat 0 (Nat.pow 4 (S m))) [] (repeat 0 (Nat.pow 4 (S m))) [] ltac:(lia) (repeat_length _ _) (repeat_length _ _)) as P.
+  rewrite !app_nil_r in P. rewrite P. cbv beta iota zeta. rewrite Z.shiftl_1_l.
+  assert (G3 : Nat.eqb (length (map (fun x_ => 2 ^ Z.of_nat (S m) * x_) (rows (S m)))) (length (cols (S m))) = true)
+    by (apply Nat.eqb_eq; rewrite map_length, rows_length, cols_length; reflexivity).
+  rewrite G3. fold (gather_idx (S m)).
+  assert (G4 : forallb (idx_ok flat) (gather_idx (S m)) = true).
+  { apply forallb_forall. intros j Hj. apply idx_ok_lt. rewrite Hl, pow4_nat. apply gather_idx_bound. exact Hj. }
+  rewrite G4. reflexivity.
+Qed.
+
+(* the row-major entries of a matrix of the model, and what the gather picks: Model/Decomp.vec *)
+Fixpoint bitsZ (n : nat) (x : Z) : list bool := match n with O => [] | S m => (2 ^ Z.of_nat m <=? x) :: bitsZ m (x mod 2 ^ Z.of_nat m) end.
+Lemma bitsZ_lo m x : 0 <= x < 2 ^ Z.of_nat m -> bitsZ (S m) x = false :: bitsZ m x.
+Proof. intros H. cbn [bitsZ]. assert (E : (2 ^ Z.of_nat m <=? x) = false) by lia. rewrite E, Z.mod_small by lia. reflexivity. Qed.
+Lemma bitsZ_hi m x : 0 <= x < 2 ^ Z.of_nat m -> bitsZ (S m) (x + 2 ^ Z.of_nat m) = true :: bitsZ m x.
+Proof.
+  intros H. cbn [bitsZ]. assert (E : (2 ^ Z.of_nat m <=? x + 2 ^ Z.of_nat m) = true) by lia. rewrite E.
+  replace (x + 2 ^ Z.of_nat m) with (x + 1 * 2 ^ Z.of_nat m) by lia. rewrite Z_mod_plus_full, Z.mod_small by lia. reflexivity.
+Qed.
+Lemma bv_length n : length (bv n) = Nat.pow 2 n.
+Proof. induction n as [|n IH]; [reflexivity|]. cbn [bv Nat.pow]. rewrite app_length, !map_length, IH. lia. Qed.
+Lemma nth_bv : forall N x, 0 <= x < 2 ^ Z.of_nat N -> nth (Z.to_nat x) (bv N) [] = bitsZ N x.
+Proof.
+  induction N as [|N IH]; intros x Hx.
+  - cbn in Hx. assert (x = 0) by lia. subst x. reflexivity.
+  - rewrite Nat2Z.inj_succ, Z.pow_succ_r in Hx by lia. pose proof (pow2_gt0 N) as Hp. cbn [bv].
+    destruct (Z.lt_ge_cases x (2 ^ Z.of_nat N)) as [Hlt|Hge].
+    + rewrite app_nth1 by (rewrite map_length, bv_length; apply Nat2Z.inj_lt; rewrite Z2Nat.id, pow2_nat by lia; lia).
+      rewrite bitsZ_lo by lia. rewrite <- (IH x) by lia.
+      rewrite (nth_indep _ [] (false :: [])) by (rewrite map_length, bv_length; apply Nat2Z.inj_lt; rewrite Z2Nat.id, pow2_nat by lia; lia).
+      apply (map_nth (cons false)).
+    + rewrite app_nth2 by (rewrite map_length, bv_length; apply Nat2Z.inj_ge; rewrite Z2Nat.id, pow2_nat by lia; lia).
+      rewrite map_length, bv_length. replace (Z.to_nat x - Nat.pow 2 N)%nat with (Z.to_nat (x - 2 ^ Z.of_nat N)) by (rewrite Z2Nat.inj_sub, <- pow2_nat, Nat2Z.id by lia; reflexivity).
+      replace x with ((x - 2 ^ Z.of_nat N) + 2 ^ Z.of_nat N) at 2 by lia. rewrite bitsZ_hi by lia. rewrite <- (IH (x - 2 ^ Z.of_nat N)) by lia.
+      rewrite (nth_indep _ [] (true :: [])) by (rewrite map_length, bv_length; apply Nat2Z.inj_lt; rewrite Z2Nat.id, pow2_nat by lia; lia).
+      apply (map_nth (cons true)).
+Qed.
+Lemma nth_concat_uniform {A} (d : A) (w : nat) : forall (L : list (list A)) (r c : nat), (forall row, In row L -> length row = w) -> (r < length L)%nat -> (c < w)%nat ->
+  nth (w * r + c) (concat L) d = nth c (nth r L []) d.
+Proof.
+  induction L as [|row L IH]; intros r c HL Hr Hc; [cbn in Hr; lia|]. cbn [concat]. destruct r as [|r].
+  - rewrite Nat.mul_0_r, Nat.add_0_l. cbn [nth]. apply app_nth1. rewrite (HL row (or_introl eq_refl)). exact Hc.
+  - cbn [nth]. rewrite app_nth2 by (rewrite (HL row (or_introl eq_refl)); nia). rewrite (HL row (or_introl eq_refl)).
+    replace (w * S r + c - w)%nat with (w * r + c)%nat by nia. apply IH; [intros x Hx; apply HL; right; exact Hx|cbn in Hr; lia|exact Hc].
+Qed.
+Definition flatten (N : nat) (A : mat) : gvec := concat (dense N A).
+Lemma flatten_length N A : length (flatten N A) = Nat.pow 4 N.
+Proof.
+  unfold flatten, dense. assert (G : forall (L : list (list bool)), length (concat (map (fun r => map (fun c => A r c) (bv N)) L)) = (length L * Nat.pow 2 N)%nat).
+  { induction L as [|x L IH]; [reflexivity|]. cbn [map concat length]. rewrite app_length, map_length, bv_length, IH. lia. }
+  rewrite G, bv_length. clear G. induction N as [|N IH]; [reflexivity|]. cbn [Nat.pow]. nia.
+Qed.
+Lemma flatten_nth N A r c : 0 <= r < 2 ^ Z.of_nat N -> 0 <= c < 2 ^ Z.of_nat N ->
+  nth (Z.to_nat (2 ^ Z.of_nat N * r + c)) (flatten N A) g0 = A (bitsZ N r) (bitsZ N c).
+Proof.
+  intros Hr Hc. unfold flatten, dense.
+  replace (Z.to_nat (2 ^ Z.of_nat N * r + c)) with (Nat.pow 2 N * Z.to_nat r + Z.to_nat c)%nat by (rewrite <- pow2_nat; nia).
+  assert (Lr : (Z.to_nat r < Nat.pow 2 N)%nat) by (apply Nat2Z.inj_lt; rewrite Z2Nat.id, pow2_nat by lia; lia).
+  assert (Lc : (Z.to_nat c < Nat.pow 2 N)%nat) by (apply Nat2Z.inj_lt; rewrite Z2Nat.id, pow2_nat by lia; lia).
+  rewrite (nth_concat_uniform g0 (Nat.pow 2 N)); [| |rewrite map_length, bv_length; exact Lr|exact Lc].
+  - rewrite (nth_indep _ [] (map (fun c0 => A [] c0) (bv N))) by (rewrite map_length, bv_length; exact Lr).
+    rewrite (map_nth (fun r0 => map (fun c0 => A r0 c0) (bv N)) (bv N) [] (Z.to_nat r)).
+    rewrite (nth_indep _ g0 (A (nth (Z.to_nat r) (bv N) []) [])) by (rewrite map_length, bv_length; exact Lc).
+    rewrite (map_nth (fun c0 => A (nth (Z.to_nat r) (bv N) []) c0) (bv N) [] (Z.to_nat c)). rewrite !nth_bv by lia. reflexivity.
+  - intros row Hrow. apply in_map_iff in Hrow. destruct Hrow as [x [<- _]]. rewrite map_length, bv_length. reflexivity.
+Qed.
+Lemma combine_app {A B} (a1 a2 : list A) (b1 b2 : list B) : length a1 = length b1 -> combine (a1 ++ a2) (b1 ++ b2) = combine a1 b1 ++ combine a2 b2.
+Proof. revert b1. induction a1 as [|x a1 IH]; intros [|y b1] H; try discriminate H; [reflexivity|]. cbn [app combine]. f_equal. apply IH. injection H as H. exact H. Qed.
+Lemma combine_map {A B A' B'} (f : A -> A') (g : B -> B') : forall a b, combine (map f a) (map g b) = map (fun p => (f (fst p), g (snd p))) (combine a b).
+Proof. induction a as [|x a IH]; intros [|y b]; try reflexivity. cbn [map combine fst snd]. f_equal. apply IH. Qed.
+Lemma vec_gather : forall N A, vec N A = map (fun p => A (bitsZ N (fst p)) (bitsZ N (snd p))) (combine (rows N) (cols N)).
+Proof.
+  induction N as [|N IH]; intros A; [reflexivity|]. cbn [vec rows cols]. cbv zeta.
+  pose proof (rows_length N) as LR. pose proof (cols_length N) as LC.
+  rewrite !combine_app by (rewrite ?map_length; congruence). rewrite !map_app.
+  assert (Hin : forall p, In p (combine (rows N) (cols N)) -> 0 <= fst p < 2 ^ Z.of_nat N /\ 0 <= snd p < 2 ^ Z.of_nat N).
+  { intros [x y] Hp. split; [apply rows_bound; exact (in_combine_l _ _ _ _ Hp)|apply cols_bound; exact (in_combine_r _ _ _ _ Hp)]. }
+  f_equal; [|f_equal; [|f_equal]].
+  - rewrite (IH (blk A false false)). apply map_ext_in. intros p Hp. destruct (Hin p Hp). unfold blk. rewrite !bitsZ_lo by assumption. reflexivity.
+  - rewrite (IH (blk A true true)). rewrite combine_map, map_map. cbn [fst snd]. apply map_ext_in. intros p Hp. destruct (Hin p Hp). unfold blk. rewrite !bitsZ_hi by assumption. reflexivity.
+  - rewrite (IH (blk A false true)). rewrite <- (map_id (rows N)) at 2. rewrite combine_map, map_map. cbn [fst snd]. apply map_ext_in. intros p Hp. destruct (Hin p Hp). unfold blk. rewrite (bitsZ_lo N (fst p)), (bitsZ_hi N (snd p)) by assumption. reflexivity.
+  - rewrite (IH (blk A true false)). rewrite <- (map_id (cols N)) at 2. rewrite combine_map, map_map. cbn [fst snd]. apply map_ext_in. intros p Hp. destruct (Hin p Hp). unfold blk. rewrite (bitsZ_hi N (fst p)), (bitsZ_lo N (snd p)) by assumption. reflexivity.
+Qed.
+Lemma gather_idx_eq N : gather_idx N = map (fun p => 2 ^ Z.of_nat N * fst p + snd p) (combine (rows N) (cols N)).
+Proof.
+  unfold gather_idx. generalize (rows N) (cols N). induction l as [|x a IH]; intros [|y b]; try reflexivity. cbn [map combine fst snd]. f_equal. apply IH.
+Qed.
+(* _mat_to_vec on the row-major entries of A is the Pauli-order vectorisation of the model *)
+Theorem gen_n_mat_to_vec (fuel N : nat) (A : mat) : (1 <= N)%nat -> (N < fuel)%nat ->
+  py_N__mat_to_vec fuel (Z.of_nat (Nat.pow 2 N)) (lift 0 (flatten N A)) = FRet (lift 0 (vec N A)).
+Proof.
+  intros HN Hf. rewrite (gen_n_mat_to_vec_idx fuel N _ HN Hf) by (rewrite lift_length; apply flatten_length). f_equal.
+  rewrite vec_gather, gather_idx_eq. unfold lift. rewrite !map_map. apply map_ext_in. intros [x y] Hp. cbn [fst snd].
+  pose proof (rows_bound N x (in_combine_l _ _ _ _ Hp)) as Hx. pose proof (cols_bound N y (in_combine_r _ _ _ _ Hp)) as Hy.
+  assert (Hb : 0 <= 2 ^ Z.of_nat N * x + y < Z.of_nat (length (map (fun z : gi => (z, 0%nat)) (flatten N A)))).
+  { rewrite map_length, flatten_length, pow4_nat. replace (4 ^ Z.of_nat N) with (2 ^ Z.of_nat N * 2 ^ Z.of_nat N) by (rewrite <- Z.pow_mul_l; reflexivity). nia. }
+  rewrite (list_get_lt _ _ _ Hb). change ((0, 0), 0%nat) with ((fun z : gi => (z, 0%nat)) g0). rewrite map_nth. rewrite flatten_nth by assumption. reflexivity.
+Qed.
+
+(* matrix_decomposition on a 2^N x 2^N matrix, given what _mat_to_vec returns *)
+Theorem gen_n_full (fuel N : nat) (flat : list num) (v : gvec) : length v = Nat.pow 4 N -> (1 <= N)%nat -> (N < fuel)%nat ->
+  py_N__mat_to_vec fuel (Z.of_nat (Nat.pow 2 N)) flat = FRet (lift 0 v) ->
+  py_N_matrix_decomposition fuel 2 (Z.of_nat (Nat.pow 2 N)) (Z.of_nat (Nat.pow 2 N)) flat = FRet (lift N (bfly_iter N v)).
+Proof.
+  intros Hv HN Hf HM. unfold py_N_matrix_decomposition. cbv zeta. cbn [Z.eqb negb seqo Pos.eqb]. rewrite Z.eqb_refl. cbn [negb seqo].
   assert (P1 : (Z.of_nat (Nat.pow 2 N) =? 1) = false).
   { destruct N as [|N']; [lia|]. cbn [Nat.pow]. pose proof (pow2_pos N'). lia. }
-  rewrite P1, popcount_pow2. cbn [Z.eqb negb seqo Pos.eqb]. cbv beta iota.
+  rewrite P1, popcount_pow2. cbn [Z.eqb negb seqo Pos.eqb]. cbv beta iota. rewrite HM. cbn [bindr]. cbv beta iota zeta.
   change (while_loop fuel _ _ (lift 0 v, 1)) with (while_loop fuel lvl_cond lvl4_body (lift 0 v, Z.of_nat (Nat.pow 4 0))).
   rewrite (levels4 N N 0%nat v fuel Hv ltac:(lia) Hf). reflexivity.
 Qed.
@@ -342,12 +563,21 @@ Proof.
     assert (E : (popcountZ s0 =? 1) = false) by lia. rewrite E. reflexivity.
 Qed.
 
-(* C13 read on the source: given the Pauli-order vectorisation vec N A (the contract of _mat_to_vec), the weights are decompose N A / 2^N *)
+(* C13 read on the source, the whole function: on the row-major entries of a 2^N x 2^N matrix A (what numpy's reshape(-1) hands over) matrix_decomposition
+   returns decompose N A / 2^N — index arrays, gather and butterfly; no contract on _mat_to_vec is left *)
 Theorem gen_n_full_decompose (fuel N : nat) (A : mat) : (1 <= N)%nat -> (N < fuel)%nat ->
-  py_N_matrix_decomposition fuel 2 (Z.of_nat (Nat.pow 2 N)) (Z.of_nat (Nat.pow 2 N)) (lift 0 (vec N A)) = FRet (lift N (decompose N A)).
+  py_N_matrix_decomposition fuel 2 (Z.of_nat (Nat.pow 2 N)) (Z.of_nat (Nat.pow 2 N)) (lift 0 (flatten N A)) = FRet (lift N (decompose N A)).
 Proof.
-  intros HN Hf. rewrite (gen_n_full fuel N (vec N A) (vec_length N A) HN Hf). f_equal. f_equal. apply (decompose_iter_eq N A).
+  intros HN Hf. rewrite (gen_n_full fuel N _ (vec N A) (vec_length N A) HN Hf (gen_n_mat_to_vec fuel N A HN Hf)). f_equal. f_equal. apply (decompose_iter_eq N A).
 Qed.
+
+(* non-vacuity of the helper: a 4 x 4 matrix with entries 0..15 *)
+Example gen_mat_to_vec_runs :
+  py_N__mat_to_vec 5 4 (map (fun k => ((k, 0), O)) (map Z.of_nat (seq 0 16))) =
+    FRet (map (fun k => ((k, 0), O)) [0; 5; 1; 4; 10; 15; 11; 14; 2; 7; 3; 6; 8; 13; 9; 12]) /\
+  py_N__mat_to_vec 5 4 (map (fun k => ((k, 0), O)) (map Z.of_nat (seq 0 15))) = FRaised EIndex /\
+  py_N__pauli_ord 3 (repeat 0 16%nat) (repeat 0 16%nat) 0 = FOutOfFuel.
+Proof. repeat split; vm_compute; reflexivity. Qed.
 
 Print Assumptions gen_n_diag.
 Print Assumptions gen_n_diag_rejects.
@@ -356,3 +586,7 @@ Print Assumptions gen_numpy_runs.
 Print Assumptions gen_n_full.
 Print Assumptions gen_n_full_rejects.
 Print Assumptions gen_n_full_decompose.
+Print Assumptions pauli_ord_spec.
+Print Assumptions gen_n_mat_to_vec_idx.
+Print Assumptions gen_n_mat_to_vec.
+Print Assumptions gen_mat_to_vec_runs.
